@@ -263,4 +263,28 @@ theorem draw_is_reported_as_cp (i : Info) (h : i.eval = 0) :
   have := stalemate_not_mate
   simp only [h, this.1, this.2, if_false]
 
+
+/-! ### non-vacuity: a three-position game in which the definitions say what they should -/
+
+/-- position 0: one move, to position 1; position 1: no move, in check (mated); position 2: no move,
+    not in check (stalemated) -/
+def tinyGame : Game Nat where
+  gen := fun p _ => if p = 0 then [1] else []
+  eval := fun _ => 0
+  inCheck := fun p => p == 1
+  key := fun p => p.toUInt64
+  null := id
+  lastMove := fun _ => none
+  oh := fun _ => 0
+  withOh := fun p _ => p
+
+example : Mated tinyGame 1 := ⟨rfl, rfl⟩
+example : Win tinyGame 1 0 := ⟨1, by simp [tinyGame], Or.inl ⟨rfl, rfl⟩⟩
+example : ¬ Mated tinyGame 2 := fun h => by cases h.2
+example : ¬ Win tinyGame 1 2 := by
+  rintro ⟨m, hm, _⟩
+  simp [tinyGame] at hm
+/-- and the minimax specification gives the mate its value: MATE − 1 at the root of position 0 -/
+example : - Spec.negamax tinyGame 2 0 1 [] 1 = Gen.mateScore - 1 := by decide
+
 end Walleye
